@@ -706,6 +706,19 @@ def mixed_sum_stream(rep, rng, count):
         rep.count("stream:mixed-sums")
         what = None
         try:
+            # several circuits in one eval call: each is evaluated as it would be alone
+            from discopy.quantum.circuit import Circuit
+            batch = Circuit.eval(terms[0], terms[1])
+            alone = [terms[0].eval(), terms[1].eval()]
+            for got_b, want_b in zip(batch, alone):
+                if type(got_b).__name__ != type(want_b).__name__ or not numpy.allclose(
+                        numpy.asarray(got_b.array, dtype=complex), numpy.asarray(want_b.array, dtype=complex), atol=ATOL):
+                    what = "evaluated together with another circuit a circuit gives %s %r, alone %s %r" % (
+                        type(got_b).__name__, list(numpy.asarray(got_b.array).flatten()), type(want_b).__name__,
+                        list(numpy.asarray(want_b.array).flatten()))
+                    break
+            if what is not None:
+                raise RuntimeError(what)
             total = terms[0] + terms[1]
             got = total.eval()
             want = terms[0].eval(mixed=True) + terms[1].eval(mixed=True)
@@ -715,7 +728,7 @@ def mixed_sum_stream(rep, rng, count):
                 what = "(pure + mixed).eval() = %s %r but the sum of the mixed evaluations is %s %r" % (
                     type(got).__name__, list(a.flatten()), type(want).__name__, list(b.flatten()))
         except Exception as exc:   # noqa
-            what = "evaluating a sum of a pure and a mixed circuit raised %s: %s" % (type(exc).__name__, exc)
+            what = what or "evaluating a pure and a mixed circuit (batch / sum) raised %s: %s" % (type(exc).__name__, exc)
         if what:
             bad += 1
             rep.count("oracle:O_mixed_sum:FAIL")
